@@ -1042,45 +1042,51 @@ func propC02(r *Run, w *World) {
 	x.ownership("C02.R7")
 	x.deliveryFromEviction("C02.R8")
 
-	r.Rule("C02.R4", "sort after insert: every path of Put that stores seqs calls Sort on the stored slice afterwards; Sort hands the receiver to sort.Sort", 2)
-	{
-		ps, _ := Paths(x.put, PathOpts{})
-		n := 0
-		for i, p := range ps {
-			var st *ssa.Store
-			for _, e := range p.Events {
-				if s, ok := e.Instr.(*ssa.Store); ok && e.Kind == EvStore {
-					if fa, ok := s.Addr.(*ssa.FieldAddr); ok && fieldOfAddr(fa) == x.fSeqs {
-						st = s
-					}
-				}
-			}
-			if st == nil {
-				continue
-			}
-			n++
-			ok := false
-			for _, c := range p.Calls(x.sortFn) {
-				arg := c.Instr.(ssa.CallInstruction).Common().Args[0]
-				ld, isLd := stripConv(arg).(*ssa.UnOp)
-				if f, _ := loadedField(arg); f == x.fSeqs && isLd && p.order(ld) > p.order(st) {
-					ok = true
-				}
-			}
-			r.Check(ok, fmt.Sprintf("Put path#%d sorts after insert", i), st.Pos(), "seqs re-sorted after the append", "seqs grows without being re-sorted on this path: "+describePath(p))
-		}
-		if n == 0 {
-			r.Fail("Put inserts", x.put.Pos(), "no path of Put stores seqs")
-		}
-		calls := callsNamedIn(x.sortFn, "sort.Sort")
-		okS := len(calls) == 1 && isParamValue(stripConv(calls[0].Common().Args[0]), x.sortFn.Params[0])
-		r.Check(okS, "Sort→sort.Sort(p)", x.sortFn.Pos(), "", "Sort does not pass its receiver to sort.Sort")
-	}
+	x.sortAfterInsert("C02.R4", "sort after insert: every path of Put that stores seqs calls Sort on the stored slice afterwards; Sort hands the receiver to sort.Sort")
 
 	x.evictionLoops("C02.R5", "head-of-line only: only seqs[0] is ever evicted, and an iteration that does not evict leaves the loop")
 
 	r.Rule("C02.R6", "callback walks the evicted slice forward; evicted grows only by append at the end", 2)
 	x.c01r6sub()
+}
+
+// sortAfterInsert: the sorted-list invariant every consumer of seqs[0] rests on (delivery order,
+// "oldest buffered", the order Close flushes in, and the loss count, which ignores a head that
+// is not after the last delivery). Stated under the rule id of the property that needs it.
+func (x *reasm) sortAfterInsert(id, desc string) {
+	r := x.r
+	r.Rule(id, desc, 2)
+	ps, _ := Paths(x.put, PathOpts{})
+	n := 0
+	for i, p := range ps {
+		var st *ssa.Store
+		for _, e := range p.Events {
+			if s, ok := e.Instr.(*ssa.Store); ok && e.Kind == EvStore {
+				if fa, ok := s.Addr.(*ssa.FieldAddr); ok && fieldOfAddr(fa) == x.fSeqs {
+					st = s
+				}
+			}
+		}
+		if st == nil {
+			continue
+		}
+		n++
+		ok := false
+		for _, c := range p.Calls(x.sortFn) {
+			arg := c.Instr.(ssa.CallInstruction).Common().Args[0]
+			ld, isLd := stripConv(arg).(*ssa.UnOp)
+			if f, _ := loadedField(arg); f == x.fSeqs && isLd && p.order(ld) > p.order(st) {
+				ok = true
+			}
+		}
+		r.Check(ok, fmt.Sprintf("Put path#%d sorts after insert", i), st.Pos(), "seqs re-sorted after the append", "seqs grows without being re-sorted on this path: "+describePath(p))
+	}
+	if n == 0 {
+		r.Fail("Put inserts", x.put.Pos(), "no path of Put stores seqs")
+	}
+	calls := callsNamedIn(x.sortFn, "sort.Sort")
+	okS := len(calls) == 1 && isParamValue(stripConv(calls[0].Common().Args[0]), x.sortFn.Params[0])
+	r.Check(okS, "Sort→sort.Sort(p)", x.sortFn.Pos(), "", "Sort does not pass its receiver to sort.Sort")
 }
 
 // c01r6sub: the forward-walk part of C01.R6, reported under the current rule.
@@ -1136,6 +1142,7 @@ func propC03(r *Run, w *World) {
 		r.Check(constVal(c) == "16777215", "maxSortRange", c.Pos(), "= 1<<24 - 1", "maxSortRange = "+constVal(c)+", want 16777215: sequence numbers further apart than the window are taken to be on opposite sides of a roll-over, so a late event counts as newer (or the reverse) and the loss count is wrong")
 	}
 	x.lessSemanticsAs("C03.R8", "C03.R9")
+	x.sortAfterInsert("C03.R10", "the list the head is taken from is kept sorted: every path of Put that stores seqs re-sorts it (the loss count skips a head that is not after the last delivery, so an unsorted list under-counts)")
 	// R6: the arithmetic the accounting relies on
 	r.Rule("C03.R6", "sequence numbers are 32-bit unsigned: sequenceNum's underlying type is uint32 (the gap is computed modulo 2^32, which is what makes it roll-over aware), lastSeq is a sequenceNum, and AuditMessage.Sequence is a uint32", 3)
 	if n, err := w.Named("libaudit", "sequenceNum"); err != nil {
@@ -1402,6 +1409,80 @@ func propC03(r *Run, w *World) {
 				okI := acc == 1 && len(rm) == 1 && firstAcc < p.order(rm[0].Instr)
 				r.Check(okI, fmt.Sprintf("%s iteration#%d accounts once", fnName(fn), i), fn.Pos(), "", fmt.Sprintf("an evicting iteration accounts for its head %d times (want once, before remove()): %s", acc, compactPath(p)))
 			}
+		}
+	}
+	// R11: the position only moves forward
+	r.Rule("C03.R11", "the delivery position only moves forward: every store to lastSeq outside the constructor happens, on every path, either while no delivery has been recorded yet or under a strict ordering test that relates the stored sequence to the old lastSeq (a late or duplicate event must not drag the position back, or the next in-order event is counted as a gap)", 1)
+	if hl, err := w.FieldVar("libaudit", "eventList", "hasLast"); err != nil {
+		r.Anchor(err)
+	} else {
+		for _, a := range Writes(w.FieldAccesses(x.fLastSeq)) {
+			if a.Kind != "store" || x.w.ownedBy(a.Fn, x.newEventList) {
+				continue
+			}
+			st, _ := a.Instr.(*ssa.Store)
+			if st == nil {
+				continue
+			}
+			tA := Term(stripConv(a.Val))
+			fa, _ := st.Addr.(*ssa.FieldAddr)
+			tB := "p0.lastSeq"
+			if fa != nil {
+				tB = Term(fa.X) + ".lastSeq"
+			}
+			good := func(cond ssa.Value, pol bool) bool {
+				c := cond
+				pl := pol
+				for {
+					if u, ok := c.(*ssa.UnOp); ok && u.Op == token.NOT {
+						c, pl = u.X, !pl
+						continue
+					}
+					break
+				}
+				if f, _ := loadedField(c); f == hl && !pl {
+					return true
+				}
+				return relatesBoth(cond, tA, tB, w) && impliesStrict(cond, pol, w, 0)
+			}
+			key := "lastSeq store in " + fnName(a.Fn) + " (" + tA + ")"
+			dom := false
+			for _, g := range GuardsAt(st.Block()) {
+				if good(g.Cond, g.Pol) {
+					dom = true
+				}
+			}
+			if dom {
+				r.OK(key, st.Pos(), "dominated by first-delivery or strict-order guard")
+				continue
+			}
+			ps, complete := Paths(a.Fn, PathOpts{MaxVisit: 2})
+			bad := ""
+			n := 0
+			for _, p := range ps {
+				o := p.order(st)
+				if o < 0 {
+					continue
+				}
+				n++
+				okP := false
+				for _, e := range p.Events {
+					if e.Kind != EvCond || e.Instr == nil || p.order(e.Instr) > o {
+						continue
+					}
+					if e.Val != nil && good(e.Val, e.ValPol) {
+						okP = true
+					}
+					if ifi, ok := e.Instr.(*ssa.If); ok && good(ifi.Cond, e.Pol) {
+						okP = true
+					}
+				}
+				if !okP && bad == "" {
+					bad = describePath(p)
+				}
+			}
+			r.Check(complete && n > 0 && bad == "", key, st.Pos(), "every path to the store passes a first-delivery or strict-order test",
+				"lastSeq is overwritten with "+tA+" on a path that neither is the first delivery (hasLast false) nor has tested that "+tA+" is after "+tB+": "+bad)
 		}
 	}
 	// R4 siblings
@@ -1721,6 +1802,7 @@ func propC10(r *Run, w *World) {
 	// R4
 	x.configAsPassed("C10.R4")
 	x.expiryPolarity("C10.R5")
+	x.sortAfterInsert("C10.R6", "seqs[0] is the oldest buffered event: every path of Put that stores seqs re-sorts it")
 }
 
 // configAsPassed: the limits the caller chose are the limits that apply (shared by C10 and C19).
@@ -1950,6 +2032,7 @@ func propC19(r *Run, w *World) {
 	}
 	x.evictionLoops("C19.R4b", "each eviction hands off exactly the head (shared with C01.R4)")
 	x.configAsPassed("C19.R6")
+	x.sortAfterInsert("C19.R7", "Close and the time-out sweep flush in order: they walk seqs from the head, and every path of Put that stores seqs re-sorts it")
 
 	r.Rule("C19.R5", "a Reassembler cannot be created without a Stream: NewReassembler returns (nil, err) under stream == nil before allocating", 2)
 	{
@@ -2167,6 +2250,14 @@ func propC11(r *Run, w *World) {
 
 	r.Rule("C11.R4", "one Close wins: flush and nil only on the true edge of CompareAndSwapInt32(&closed, 0, 1), the error on the other", 2)
 	x.closeOnce()
+
+	// "every message is delivered at most once ... exactly once in a single-sequence group": under
+	// the lock discipline above, the per-call conservation conditions of C01 are what rules out a
+	// lost or doubled record whichever goroutine runs the call; they are necessary for C11's
+	// clause as well and are stated here under its own ids
+	x.ownership("C11.R7")
+	x.deliveryFromEviction("C11.R8")
+	x.evictionLoops("C11.R9", "each eviction hands off exactly the head and removes it through remove() (shared with C01.R4): an event taken out of the table any other way can stay reachable for a concurrent or later Put and swallow a record")
 
 	r.Rule("C11.R5", "immutable after construction: Reassembler.list/.stream and eventList.maxSize/.timeout are written only by the constructors", 4)
 	for _, fv := range []*types.Var{x.fList, x.fStream} {
